@@ -339,6 +339,11 @@ Section Model.
         end
     end.
 
+  (* fix 5dde979: the assignment is made on a COPY of the series (updated = series.copy(); updated[...] = value) and committed
+     (series[...] = updated) only if it went through: a cast failing part-way leaves the series as it was *)
+  Definition commit (v : var) (r : list pyval * option exn) : var * option exn :=
+    match snd r with Some e => (v, Some e) | None => (with_data v (fst r), None) end.
+
   (* arr[ps] = value  for a rank-1 array (ps = the addressed positions; whole = arr[:]) *)
   Definition assign_inplace (v : var) (ps : list nat) (value : operand) : var * option exn :=
     let k := length ps in
@@ -351,14 +356,14 @@ Section Model.
     | OArr sh dt cells =>
         match bcast_arr k sh cells with
         | None => (v, Some ValueError)
-        | Some cs => let '(d, e) := write_cells (arrcast dt (vdtype v)) ps cs (vdata v) in (with_data v d, e)
+        | Some cs => commit v (write_cells (arrcast dt (vdtype v)) ps cs (vdata v))
         end
     | OSeq _ _ | ORange _ _ _ =>
         match as_array value with
         | Raise e => (v, Some e)
         | Ret (sh, cells) =>
             if (if list_eq_dec Nat.eq_dec sh [k] then true else false) then
-              let '(d, e) := write_cells (pycast (vdtype v)) ps cells (vdata v) in (with_data v d, e)
+              commit v (write_cells (pycast (vdtype v)) ps cells (vdata v))
             else if negb (Nat.eqb (length sh) 1) then (v, Some ValueError)   (* nesting deeper than the destination: rejected before any cast *)
             else
               match cast_all (pycast (vdtype v)) cells with
@@ -588,8 +593,13 @@ Section Model.
     | Some h => filter (fun x => String.eqb (lower x) h) cands
     end.
 
+  (* isinstance(getattr(type(self), name, None), property) *)
+  Definition is_property (k : ckind) (name : string) : bool :=
+    (String.eqb name "strict" || String.eqb name "values" || String.eqb name "size" || String.eqb name "nbytes" ||
+     match k with CLinker _ => (String.eqb name "sizes" || String.eqb name "LAGS" || String.eqb name "LEADS")%bool | _ => false end)%bool.
+
   Definition setattr (name : string) (value : operand) (hint : option string) (s : state) : res :=
-    if (negb (String.eqb name "strict") && strict s && negb (mem name (index s)) && negb (reg_mem name (registry s)))%bool
+    if (negb (is_property (kind s) name) && strict s && negb (mem name (index s)) && negb (reg_mem name (registry s)))%bool
     then
       match alternatives hint (row_names s) with
       | _ :: _ :: _ => err s NotImplementedError
